@@ -35,7 +35,7 @@ Program unit file: {"module": name, "routines": [routine...],
                     "main": routine-like dict (kind 'program') | None}
 """
 
-TYNAME = {"i": "integer", "r": "real(kind=8)", "l": "logical"}
+TYNAME = {"i": "integer", "r": "double precision", "l": "logical"}
 
 
 # ------------------------------------------------------------ constructors
@@ -202,6 +202,9 @@ def stmts(body, ind):
                                           ", ".join(top(a) if a[0] != "arr"
                                                     else ex(a)
                                                     for a in s[2])))
+        elif t == "icallsub":
+            out.append("%scall %s(%s)" % (p, s[1], ", ".join(
+                ex(a) if a[0] == "arr" else top(a) for a in s[2])))
         elif t == "verb":
             out.append(p + s[1])
         elif t in ("exit", "cycle", "return"):
